@@ -157,6 +157,10 @@ pub struct Gen {
     pub feat_deep: bool,
     /// `operations` part of a multipart body may carry a multipart/* Content-Type
     pub feat_part_ct: bool,
+    /// variable definitions `$v: <type unknown to the schema> = <non-null default>`
+    pub feat_vardef: bool,
+    /// true while generating a text that reaches the library without any further mutation
+    pub safe_ctx: bool,
     pub thorough: bool,
     pub fields: Vec<FieldSpec>,
 }
@@ -164,8 +168,16 @@ pub struct Gen {
 const WORDS: [&str; 12] = ["a", "x", "hello", "RED", "null", "", " ", "é", "日本", "\u{1F600}", "a\"b", "line\nbreak"];
 
 impl Gen {
-    pub fn new(r: Rng, feat_upload: bool, feat_deep: bool, feat_part_ct: bool, thorough: bool) -> Gen {
-        Gen { r, feat_upload, feat_deep, feat_part_ct, thorough, fields: fields() }
+    pub fn new(r: Rng, feat_upload: bool, feat_deep: bool, feat_part_ct: bool, feat_vardef: bool, thorough: bool) -> Gen {
+        Gen { r, feat_upload, feat_deep, feat_part_ct, feat_vardef, safe_ctx: false, thorough, fields: fields() }
+    }
+
+    /// May the text being generated contain a variable default value? While
+    /// the unknown-type finding is known (feature off) only texts that are not
+    /// mutated afterwards may: a later mutation of the type name next to a
+    /// default would be exactly the excluded input.
+    pub fn defaults_ok(&self) -> bool {
+        self.feat_vardef || self.safe_ctx
     }
 
     fn gql_string(&mut self) -> String {
@@ -416,7 +428,7 @@ impl Gen {
                 }
                 if use_var {
                     let vn = format!("v{}", doc.var_defs.len());
-                    let default = if !at.has_upload() && !matches!(at, Ty::NN(_)) && self.r.chance(1, 4) {
+                    let default = if self.defaults_ok() && !at.has_upload() && !matches!(at, Ty::NN(_)) && self.r.chance(1, 4) {
                         format!(" = {}", self.value(at, 2, false))
                     } else {
                         String::new()
